@@ -19,7 +19,7 @@ EXTENDS Naturals, Sequences, FiniteSets, TLC
 
 CONSTANT NotForwarded    \* set of channels the wrapper does NOT forward (as built: {})
 
-Channels == {"ser", "attrs", "de", "check", "debug", "default", "clone_shares"}
+Channels == {"ser", "attrs", "de", "check", "check_memo", "debug", "default", "clone_shares"}
 Forward(ch) == ch \notin NotForwarded
 
 RECURSIVE Erase(_)
@@ -36,6 +36,27 @@ RECURSIVE Check(_)
 Check(v) == CASE v.k = "wrap" -> IF Forward("check") THEN Check(v.inner) ELSE TRUE     \* the trait's default accepts
               [] v.k = "node" -> \A i \in 1..Len(v.kids) : Check(v.kids[i])
               [] OTHER -> v.ok
+\* The verdict of check_restrictions depends on the value AND on the restrictions handed down by the caller
+\* (r = NoBound or an upper bound on the length of every text leaf).  A value is checked many times in its life
+\* (each request that refers to it, each restricted type it sits in): a HISTORY is a sequence of handed-down
+\* restrictions, its observation the sequence of verdicts.  "check_memo" \in NotForwarded models a wrapper that
+\* remembers a passed check instead of forwarding every call (state that survives between calls).
+NoBound == 99      \* stands for `None` (TLC cannot put a string and numbers into one set)
+CtxOk(v, r) == r = NoBound \/ Len(v.text) <= r
+RECURSIVE CheckR(_, _)
+CheckR(v, r) == CASE v.k = "wrap" -> IF Forward("check") THEN CheckR(v.inner, r) ELSE TRUE
+                  [] v.k = "node" -> \A i \in 1..Len(v.kids) : CheckR(v.kids[i], r)
+                  [] OTHER -> v.ok /\ CtxOk(v, r)
+\* the verdicts of a root value over a history; `passed` = a wrapper at the root has seen a successful check
+RECURSIVE Hist(_, _, _)
+Hist(v, rs, passed) ==
+  IF rs = <<>> THEN <<>>
+  ELSE LET verdict == IF v.k = "wrap" /\ ~Forward("check_memo") /\ passed THEN TRUE ELSE CheckR(v, Head(rs))
+       IN <<verdict>> \o Hist(v, Tail(rs), passed \/ verdict)
+Contexts == {NoBound, 0, 2, 5}
+Histories == {<<a>> : a \in Contexts} \cup {<<a, b>> : a, b \in Contexts}
+HistTransparent(v) == \A rs \in Histories : Hist(v, rs, FALSE) = Hist(Erase(v), rs, FALSE)
+
 HoistedAttrs(v) == CASE v.k = "wrap" -> IF Forward("attrs") THEN (IF v.inner.k = "node" THEN v.inner.attrs ELSE {}) ELSE {}
                      [] v.k = "node" -> v.attrs
                      [] OTHER -> {}
@@ -44,4 +65,5 @@ HoistedAttrs(v) == CASE v.k = "wrap" -> IF Forward("attrs") THEN (IF v.inner.k =
 Transparent(v) == /\ Ser(v) = Ser(Erase(v))
                   /\ Check(v) = Check(Erase(v))
                   /\ HoistedAttrs(v) = HoistedAttrs(Erase(v))
+                  /\ HistTransparent(v)
 =======================================================================
